@@ -450,6 +450,15 @@ func (g *G) Expr(t Ty, d int) string {
 		case 9:
 			if g.F.Maps {
 				k := "k" + strconv.Itoa(r.Intn(8))
+				if is := g.visible(TInt, false); len(is) > 0 && r.Bool(.25) {
+					// an integer variable (possibly living in a register) as key, or its NAME as field name
+					iv := core.Pick(r, is)
+					if r.Bool(.5) {
+						return "int(" + g.Expr(TMap, d+1) + "." + iv.Name + ")"
+					}
+					g.noteRead(iv)
+					return "int(" + g.Expr(TMap, d+1) + "[" + iv.Name + "])"
+				}
 				if r.Bool(.5) {
 					return "int(" + g.Expr(TMap, d+1) + "." + k + ")"
 				}
@@ -667,7 +676,22 @@ func (g *G) indexAssign() string {
 			g.noteRead(v)
 			k := "k" + strconv.Itoa(g.R.Intn(8))
 			g.tick(3)
-			switch g.R.Intn(3) {
+			switch g.R.Intn(4) {
+			case 3:
+				// integer key taken from a bare variable (a loop variable or integer parameter lives in a register),
+				// or a field named like such a variable
+				if is := g.visible(TInt, false); len(is) > 0 {
+					iv := core.Pick(g.R, is)
+					switch g.R.Intn(4) {
+					case 0:
+						return v.Name + "." + iv.Name + " = " + g.Expr(TInt, 1)
+					case 1:
+						return "del(" + v.Name + "." + iv.Name + ")"
+					}
+					g.noteRead(iv)
+					return v.Name + "[" + iv.Name + "] = " + g.Expr(TInt, 1)
+				}
+				return v.Name + "[" + strconv.Itoa(g.R.Intn(8)) + "] = " + g.Expr(TInt, 1)
 			case 0:
 				return v.Name + "." + k + " = " + g.Expr(TInt, 1)
 			case 1:
